@@ -6,9 +6,9 @@ V = os.path.dirname(os.path.abspath(__file__))
 TECH = "symbolic execution of the real Go SSA (gosym, fork of x/tools go/ssa/interp) with branch feasibility and assertions decided by z3; counterexamples replayed natively"
 claimed = {
  "C17": dict(
-  text="Bounded model checking by symbolic execution of the real parse_pdr.go functions: every path of CreatePortRangeCartesianProduct / classification / trivial conversion is executed with both ranges and a probe packet symbolic; the solver decides on each path that the produced rules match exactly the ranges (or that refusal happens exactly for unrepresentable pairs). Complete for all 2^32 ranges per side and all probes for the Exact strategy; the Ternary strategy is covered by an inductive first-block lemma plus whole expansions of <= N rules.",
-  note="Assumes ranges are not inverted (parsePort refuses them; C08). Trusts z3 (answers cross-checked against z3 5.1 in the thorough tier), go/ssa's lowering of the source, and the engine's instruction semantics (validated on every run by replaying sampled passing paths natively and comparing observations).",
-  ref="DESIGN.md 6.17"),
+  text="Bounded model checking by symbolic execution of the real parse_pdr.go functions: every path of CreatePortRangeCartesianProduct / classification / trivial conversion is executed with both ranges and a probe packet symbolic; the solver decides on each path that the produced rules match exactly the ranges (or that refusal happens exactly for unrepresentable pairs). Complete for all 2^32 ranges per side and all probes for the Exact strategy. The Ternary strategy is covered by an inductive block lemma over the real portMask/maxPort literals for every (block start, range end) and every probe, plus the whole expansion loop for all ranges up to 8 (quick) / 64 (thorough) ports wide.",
+  note="Assumes ranges are not inverted (parsePort refuses them; C08). Ternary ranges wider than the stated width rest on the block lemma plus the four-line loop (continue at block end + 1 while <= high), which is only executed for the bounded widths. Trusts z3, go/ssa's lowering of the source, and the engine's instruction semantics (validated on every run by replaying sampled passing paths natively and comparing observations).",
+  ref="DESIGN.md 6.17, 10"),
 }
 claimed.update({
  "C02": dict(
@@ -50,13 +50,45 @@ claimed.update({
   note="Narrowed: spacing by resp_timeout, the ticker, tryConnectToN4Peers and 'peer dead => sessions removed' are outside (Request.GetResponse is a plan stub under the engine; the native replay runs the real timer code with a peer goroutine).",
   ref="DESIGN.md 6.12"),
  "C13": dict(
-  text="Bounded model checking of handleDigestReport on a store holding an arbitrary session (1..2 PDRs of either direction, 0..2 FARs with arbitrary Apply Action): nothing is sent for unknown sessions, sessions without downlink PDR or whose downlink FAR does not ask (or does not exist); otherwise exactly one Session Report Request with the CP SEID, a fresh sequence number and the downlink PDR id.",
-  note="The rate limiter (notifier.go) depends on the wall clock; its harness is registered only when the clock overlay is in place (see DESIGN.md); the UP4 digest loop and BESS socket reader are outside.",
-  ref="DESIGN.md 6.13"),
+  text="Bounded model checking of both halves. (1) handleDigestReport on a store holding an arbitrary session (1..2 PDRs of either direction, 0..2 FARs with arbitrary Apply Action): nothing is sent for unknown sessions, sessions without downlink PDR or whose downlink FAR does not ask (or does not exist); otherwise exactly one Session Report Request with the CP SEID, a fresh sequence number and the downlink PDR id. (2) The rate limiter NewDownlinkDataNotifier/Notify/shouldNotify over 3 (quick) / 5 (thorough) reports with arbitrary F-SEIDs under a symbolic strictly increasing clock and an arbitrary interval: a first report is always forwarded, two forwarded reports of one session are at least one interval apart, a report is suppressed only within one interval of a forwarded one.",
+  note="The clock is an input: every time.Now/Since of repository code reads a fresh symbolic instant; the native replay feeds the same instants to the real code through a patched copy of package time in the overlay of the replay build. The UP4 digest loop, the BESS socket reader and node.Serve's dispatch are blocking service loops and are outside. One association.",
+  ref="DESIGN.md 6.13, 10"),
  "C14": dict(
   text="Bounded model checking of end-marker emission: a session with two downlink FARs on arbitrary tunnels receives a modification with 1..2 (quick) / 1..3 (thorough) Update FARs (target found/unknown, arbitrary new tunnel, arbitrary PFCPSMReq-Flags byte or none), feature on/off, datapath accept/reject; the solver decides the number of markers, their destination (tunnel before that update), TEID, source, UDP ports, GTP type and that they are handed to the datapath after the update was programmed.",
   note="gopacket.SerializeLayers is stubbed under the engine (layer structs recorded) and real in the native replay (packet bytes decoded); the transports of SendEndMarkers are outside.",
   ref="DESIGN.md 6.14"),
+})
+claimed.update({
+ "C03": dict(
+  text="Bounded model checking of the BESS translation: the real PFCP handlers and bess.SendMsgToUPF/addPDR/delPDR/addFAR/delFAR/addQER/delQER/processPDR/FAR/QER/GRPCJoin/clearState run symbolically against an in-harness BESS (ModuleCommand add/delete/clear on pdrLookup, farLookup, appQERLookup, sessionQERLookup, sliceMeter). After every request of a history (establishment + 1 quick / 2 thorough further requests over <= 2 sessions) the solver decides that the module tables equal the image computed from the session store, that rejected requests leave them unchanged, that restart clears them, and - with all PDR field values and the packet symbolic - that the entries of one PDR match exactly the packets the PDR describes.",
+  note="In-harness BESS (no gRPC transport, no real bessd); the plug-in's per-call goroutines run under ONE deterministic schedule of the engine's baton scheduler; concrete rule values from small sets in the history harness, symbolic ones in the packet harness (true port ranges <= 2 quick / 4 thorough wide; all widths are C17).",
+  ref="DESIGN.md 6.3, 10"),
+ "C04": dict(
+  text="Bounded model checking of the UP4 translation: the real handlers, UP4.SendMsgToUPF/sendCreate/sendUpdate/sendDelete/modifyUP4ForwardingConfiguration, reference-counting helpers, P4rtTranslator and P4rtClient run symbolically against an in-harness P4Runtime target. After every request of a history (establishment + 1 quick / 2 thorough of {second session, Update FAR to a new peer / buffer / drop / forward, deletion, unknown session}) the solver decides that the target's tables, meters and the agent's id pools equal the image computed from the session store (sessions, terminations, applications, tunnel peers shared by reference count), and that initialize(true) clears a previous incarnation's entries.",
+  note="In-harness target implementing INSERT/MODIFY/DELETE/Read per the P4Runtime specification; real gRPC, reconnect loop and digests outside. Rule values concrete from small sets (arbitrary values are C16); <= 2 sessions.",
+  ref="DESIGN.md 6.4, 10"),
+ "C11": dict(
+  text="Narrowed to race freedom by lock discipline, decided path-sensitively: on every explored path of create/update/delete for two sessions through UP4.SendMsgToUPF and of establishment / teardown through the handlers, every access to the shared datapath and allocator state (tunnelPeerIDs, applicationIDs, their pools, meters, ueAddrToFSEID, fseidToUEAddr, IPPool inventory/freePool, FTEIDGenerator usedMap/offset) happens while the declared mutex is held. A violation is replayed natively by two goroutines under the Go race detector.",
+  note="Serialisability of outcomes, the BESS plug-in's per-call goroutine ordering and crash isolation are NOT claimed; interleavings are not executed (sync.Mutex is assumed to give mutual exclusion).",
+  ref="DESIGN.md 6.11, 10"),
+ "C15": dict(
+  text="Bounded fault-position model checking: establishment, optional modification and deletion of one session followed by a second session run through the real handlers and UP4 code against the in-harness P4Runtime target with ONE failing Write whose position k is symbolic (1..14 quick / 1..16 thorough, or none) and whose kind is a transport error, INVALID_ARGUMENT or ALREADY_EXISTS; on every path the solver decides that the request is rejected when its write failed, and that counter cells, meter cells, tunnel-peer ids and application ids owned by live entries stay exclusive and are neither leaked nor handed out twice afterwards.",
+  note="A failing Write applies nothing (P4Runtime batch atomicity as the agent uses it: one update per Write) except ALREADY_EXISTS, which the agent tolerates. Pools shrunk to 6 cells so that exhaustion and reuse are reachable. Two faults in one history are outside.",
+  ref="DESIGN.md 6.15, 10"),
+ "C16": dict(
+  text="Bounded model checking of encoding validity: every table entry, meter entry and counter request the P4rtTranslator builds (all five table builders on arbitrary arguments; sendCreate/sendDelete end to end for symbolic uplink and downlink PDRs) is validated, field by field, against the P4Info regenerated on every run from conf/p4/bin/p4info.txt: table/action/field/param ids exist and belong together, value widths fit the declared bit widths in canonical form, match kinds agree, priorities present exactly for ternary/range tables, meter/counter indices within size. A precondition re-runs the generator and compares internal/p4constants byte for byte.",
+  note="Rule values inside the envelope the PFCP handlers guarantee (prefix masks, ordered ports, 6-bit QFI, 40-bit rates, slice <= 15, TC <= 3). The validator is the harness's own reading of the P4Runtime specification section 9.1; a real switch is outside.",
+  ref="DESIGN.md 6.16, 10"),
+ "C18": dict(
+  text="Bounded model checking of LoadConfigFile's default filling and validateConf on an arbitrary decoded Conf (every field the two functions read symbolic, strings as atoms with ParseCIDR/ParseIP/ParseDuration uninterpreted): the solver decides on every path that a configuration is accepted only if mode, addresses, pool, timeouts, retries and log level are within their documented domains, that the documented defaults are filled exactly when the field is absent, and that an unreadable or undecodable file is an error.",
+  note="Narrowed: os.ReadFile, comment stripping and json.Unmarshal are stubs under the engine (real in the native replay, which writes the model as a commented JSON file); JSON syntax, 'never panics on arbitrary bytes' and the shipped sample files are not claimed.",
+  ref="DESIGN.md 6.18, 10"),
+ "C20": dict(
+  text="Symbolic execution of the real conf/route_control.py (Python) by CrossHair with z3: netlink route/neighbour events over a small universe of prefixes, gateways, interfaces and MAC addresses are symbolic; after each event sequence (3 events quick / 4 thorough; all kind sequences of new-route / delete-route / neighbour-resolution; the first event's indices fixed per process, the others symbolic) the fake BESS's IPLookup/Update module state must equal the image of the kernel tables the events describe (routes whose next hop resolved, one Update module per neighbour with correct gates, nothing left for deleted routes).",
+  note="pyroute2, pybess and scapy are stub modules (documented contracts); universes A = 3 prefixes x 2 next hops x 1 interface and B = 2 prefixes x 1 next hop x 2 interfaces; CrossHair's per-path timeout is a bound: paths it does not finish are reported in the evidence. One known finding (neighbour cache keyed by IP only) is listed in known_findings.json.",
+  engine="crosshair",
+  technique="symbolic execution of the real Python source with CrossHair (z3 back end); counterexamples replayed on the plain interpreter",
+  ref="DESIGN.md 6.20, 10"),
 })
 pending = {}
 na = {
@@ -90,6 +122,8 @@ m = {
  "engines": [
   {"name": "gosym", "path": "/verif/engine", "serves_properties": [p for p in props if p in claimed and claimed[p].get("engine","gosym")=="gosym"],
    "kind_free_text": "symbolic executor for Go SSA (fork of golang.org/x/tools/go/ssa/interp v0.29.0) + z3 over SMT-LIB2 pipe; replay-based DFS over decision vectors; native replay via go test -overlay"},
+  {"name": "crosshair", "path": "/verif/c20", "serves_properties": ["C20"],
+   "kind_free_text": "CrossHair (python3-vt) symbolic execution of conf/route_control.py against stub modules and a world model; z3 back end; concrete replay"},
  ],
  "checks": checks,
  "not_applicable": [{"property_id": k, "reason": v} for k, v in list(na.items()) + list(pending.items())],
